@@ -320,6 +320,10 @@ def split_clauses(s):
 def plain_head(head):
     if not head or head[0][0] not in ('ATOM', 'STRING'):
         return None
+    if head[0][0] == 'STRING':
+        import re
+        if re.search(r"\\(?!')", head[0][1][1:-1]):
+            return None     # a backslash that is not part of backslash-quote: the atom's name is unspecified (C16)
     name = head[0][1] if head[0][0] == 'ATOM' else unquote(head[0][1])
     if len(head) == 1:
         return (name, 0)
